@@ -126,12 +126,26 @@ def clang_data_images(csrc_path, target, wd, lang="c", extra=()):
     if p.returncode != 0:
         raise common.Machinery("llvm-nm failed: " + p.stderr.decode(errors="replace")[:500])
     out = {}
+    syms = []
     for line in p.stdout.decode().splitlines():
         parts = line.split()
+        if len(parts) == 3 and parts[1] in ("D", "d"):      # COFF: no symbol sizes
+            parts = [parts[0], "0", parts[1], parts[2]]
         if len(parts) != 4 or parts[2] not in ("D", "d"):
             continue
-        addr, size, name = int(parts[0], 16), int(parts[1], 16), parts[3].lstrip("_") if target.startswith("i686-pc-windows") else parts[3]
+        syms.append((int(parts[0], 16), int(parts[1], 16), parts[3].lstrip("_") if target.startswith("i686-pc-windows") else parts[3]))
+    syms.sort()
+    for k, (addr, size, name) in enumerate(syms):
+        if size == 0:
+            # object format without symbol sizes: up to the next symbol (may include alignment padding after the object;
+            # callers compare the prefix that is as long as the Rust object and require the rest to be zero)
+            size = (syms[k + 1][0] if k + 1 < len(syms) else len(data)) - addr
         if addr + size > len(data):
             raise common.Machinery(f"symbol {name} outside .data ({addr}+{size} > {len(data)}) for {target}")
         out[name] = data[addr:addr + size]
     return out, None
+
+
+def exact_sizes(target):
+    """Does the object format of `target` record symbol sizes (ELF) or not (COFF)?"""
+    return "windows" not in target
